@@ -59,6 +59,10 @@ impl<'ast> Visit<'ast> for Results {
 struct Sched {
     missing: Vec<String>,
     always: Vec<String>,
+    /// the conditions / loops around the statement being visited (innermost last)
+    ctx: Vec<String>,
+    /// (task, guards) for every scheduling call
+    guarded: Vec<(String, Vec<String>)>,
 }
 
 impl<'ast> Visit<'ast> for Sched {
@@ -68,11 +72,47 @@ impl<'ast> Visit<'ast> for Sched {
             if let Some(t) = m.args.first().and_then(task_in) {
                 let v = if name == "schedule_missing" { &mut self.missing } else { &mut self.always };
                 if !v.contains(&t) {
-                    v.push(t);
+                    v.push(t.clone());
                 }
+                self.guarded.push((t, self.ctx.clone()));
             }
         }
         syn::visit::visit_expr_method_call(self, m);
+    }
+    // what a scheduling call is nested in: `if`, `for`, `while`, `match`, closures
+    fn visit_expr_if(&mut self, i: &'ast syn::ExprIf) {
+        self.visit_expr(&i.cond);
+        self.ctx.push(format!("if {}", compact(&*i.cond)));
+        self.visit_block(&i.then_branch);
+        self.ctx.pop();
+        if let Some((_, e)) = &i.else_branch {
+            self.ctx.push(format!("else of if {}", compact(&*i.cond)));
+            self.visit_expr(e);
+            self.ctx.pop();
+        }
+    }
+    fn visit_expr_for_loop(&mut self, f: &'ast syn::ExprForLoop) {
+        self.ctx.push(format!("for {} in {}", compact(&*f.pat), compact(&*f.expr)));
+        self.visit_block(&f.body);
+        self.ctx.pop();
+    }
+    fn visit_expr_while(&mut self, w: &'ast syn::ExprWhile) {
+        self.ctx.push(format!("while {}", compact(&*w.cond)));
+        self.visit_block(&w.body);
+        self.ctx.pop();
+    }
+    fn visit_expr_match(&mut self, m: &'ast syn::ExprMatch) {
+        self.visit_expr(&m.expr);
+        for arm in &m.arms {
+            self.ctx.push(format!("match {} arm {}", compact(&*m.expr), compact(&arm.pat)));
+            self.visit_expr(&arm.body);
+            self.ctx.pop();
+        }
+    }
+    fn visit_expr_closure(&mut self, c: &'ast syn::ExprClosure) {
+        self.ctx.push("closure".into());
+        self.visit_expr(&c.body);
+        self.ctx.pop();
     }
 }
 
@@ -132,7 +172,7 @@ pub fn run(repo: &Path) -> String {
         handler.insert(variant, res.0);
     }
     let qs = top_fn(&file, "queue_start_tasks").expect("queue_start_tasks");
-    let mut s = Sched { missing: vec![], always: vec![] };
+    let mut s = Sched { missing: vec![], always: vec![], ctx: vec![], guarded: vec![] };
     s.visit_block(&qs.block);
 
     let mut out = lean_header("src/server/scheduler.rs (process_task, task handlers, queue_start_tasks)");
@@ -147,6 +187,16 @@ pub fn run(repo: &Path) -> String {
     out.push_str(&format!("def startMissing : List TaskKind := [{}]\n", s.missing.iter().map(|t| format!(".{t}")).collect::<Vec<_>>().join(", ")));
     out.push_str("\n/-- Tasks `queue_start_tasks` adds with `schedule`. -/\n");
     out.push_str(&format!("def startAlways : List TaskKind := [{}]\n", s.always.iter().map(|t| format!(".{t}")).collect::<Vec<_>>().join(", ")));
+    // where each scheduling call of `queue_start_tasks` sits: the enclosing loops and conditions, outermost first
+    out.push_str("\n/-- Every scheduling call of `queue_start_tasks` with the loops / conditions it is nested in (outermost first; `[]` = a plain statement of the function body, executed on every start). -/\n");
+    out.push_str("def startGuards : List (TaskKind × List String) := [\n");
+    let rows: Vec<String> = s
+        .guarded
+        .iter()
+        .map(|(t, g)| format!("  (.{t}, [{}])", g.iter().map(|x| format!("{:?}", x)).collect::<Vec<_>>().join(", ")))
+        .collect();
+    out.push_str(&rows.join(",\n"));
+    out.push_str("]\n");
     out.push_str("\nend KM.Generated\n");
     out
 }
